@@ -1,7 +1,7 @@
 (* C01 — Two endpoints built on the library interoperate, even across transport loss.
    Statements only.  Nothing else may be added to this file. *)
 From MQ Require Import Base.Prelude Alloc.Alloc Alloc.AllocProofs Framing.Framing Framing.FramingProofs Conn.Types Conn.ConnRecord Conn.Step
-                       Corr.ConnTrace Conn.Scope Conn.Session Conn.IdsQuota Conn.Own Conn.OwnFrame Conn.OwnStep Conn.Run Conn.PairQos Conn.PairQos0 Conn.PairQos5 Conn.PairSeq Conn.PairSeq5 Conn.PairConc Conn.PairBi Conn.PairConc5 Conn.PairBi5 Conn.PairManual Conn.PairManual5 Conn.PairManualSeq Conn.SessInv Conn.PairLoss Conn.PairLossAcc Conn.PairLossS.
+                       Corr.ConnTrace Conn.Scope Conn.Session Conn.IdsQuota Conn.Own Conn.OwnFrame Conn.OwnStep Conn.Run Conn.PairQos Conn.PairQos0 Conn.PairQos5 Conn.PairSeq Conn.PairSeq5 Conn.PairConc Conn.PairBi Conn.PairConc5 Conn.PairBi5 Conn.PairManual Conn.PairManual5 Conn.PairManualSeq Conn.PairManualSeq5 Conn.SessInv Conn.PairLoss Conn.PairLossAcc Conn.PairLossS.
 
 (* what the pair property rests on, each proved for ALL states of one endpoint:
    (i) delivery in any fragmentation is the same byte stream (C09) *)
@@ -271,6 +271,17 @@ Theorem C01_pair_sequence_exactly_once_manual : forall gs gr ps cs cr,
   end.
 Proof. exact run_seq_m_ok. Qed.
 Print Assumptions C01_pair_sequence_exactly_once_manual.
+
+(* ... and for v5.0 (Conn/PairManualSeq5.v): both Receive Maximum accounts are at zero between exchanges *)
+Theorem C01_pair_sequence_exactly_once_manual_v5 : forall gs gr ps cs cr,
+  pair_inv5_m gs gr cs cr -> Forall (fun p => v5_pub p 1 \/ v5_pub p 2) ps ->
+  match run_seq5_m gs gr cs cr ps with
+  | Done cs' cr' d => d = ps /\ pair_inv5_m gs gr cs' cr'
+  | AppPre => True
+  | Fail => False
+  end.
+Proof. exact run_seq5_m_ok. Qed.
+Print Assumptions C01_pair_sequence_exactly_once_manual_v5.
 
 (* the same for v5.0 (Conn/PairManual5.v), with both Receive Maximum accounts: the receiver's slot stays taken from the
    PUBLISH until ITS APPLICATION sends PUBACK (QoS 1) or PUBCOMP (QoS 2) and is then free again; the sender's count is back
@@ -627,6 +638,28 @@ Example C01_pair_sequence_v5_nonvacuous :
   end.
 Proof. vm_compute. repeat split; reflexivity. Qed.
 
+
+(* ... and the v5.0 manual-response one *)
+Example C01_pair_sequence_manual_v5_nonvacuous :
+  let gs := mkCfg RClient 65535 2 in
+  let gr := mkCfg RServer 65535 2 in
+  let cn := mkPkt 1 V50 0 0 false false [] None 0 0 24 false 0 true 0 None (Some 3) (Some 100) None None in
+  let ca := mkPkt 2 V50 0 0 false false [] None 0 0 11 true 0 false 0 None (Some 2) (Some 50) None None in
+  let ops_s := [OSend cn; ORecv [32;9;0;0;6;33;0;2;39;0;0;0;50] (PROk ca)] in
+  let ops_r := [ORecv [16;13;0;4;77;81;84;84;5;2;0;0;0;0;0] (PROk cn); OSend ca] in
+  let pb := fun id q pay => mkPkt 3 V50 id q false false [116] None pay 0 (8 + pay) false 0 false 0 None None None None None in
+  let ps := [pb 1 1 0; pb 1 2 3; pb 7 2 0; pb 7 1 5; pb 1 2 1] in
+  match run_state gs (conn_new gs V50) ops_s, run_state gr (conn_new gr V50) ops_r with
+  | Some cs, Some cr =>
+      c_auto_pub cs = false /\ c_auto_pub cr = false /\
+      match run_seq5_m gs gr cs cr ps with
+      | Done cs' cr' d => d = ps /\ vacancy cs' = Some 2 /\ c_publish_recv cr' = [] /\ c_qos2 cr' = [] /\ c_store cs' = [] /\
+                          a_pool (c_pid cs') = [(1, 65535)]
+      | _ => False
+      end
+  | _, _ => False
+  end.
+Proof. vm_compute. repeat split; reflexivity. Qed.
 
 (* the concurrent theorem is not vacuous: four messages published while earlier ones are still in flight (three
    exchanges open at once), deliveries interleaved, one publication skipped because its identifier is still in use;
